@@ -58,10 +58,42 @@ def make_case_call(rng):
         # the (unique, never missing) match attribute is also the key attribute
         for spec, side in ((L, 'l'), (R, 'r')):
             vals = spec['data'][side + 'attr']
-            spec['data'][side + 'attr'] = ['%s u%d' % (v if isinstance(v, str) else 'x', i)
+            # (no NUL characters in a KEY column: pandas' own unique() compares object strings only up
+            #  to the first NUL, so such keys are not distinguishable for pandas itself -- DESIGN 8.3)
+            spec['data'][side + 'attr'] = ['%s u%d' % (v.replace('\x00', '') if isinstance(v, str) else 'x', i)
                                            for i, v in enumerate(vals)]
         lkey, rkey = 'lattr', 'rattr'
+    numeric = None
+    if tok is None and rng.random() < 0.35 and lkey == 'lid':
+        # match attributes that are not strings (prices, years, dates) compared by a user function;
+        # missing = NaN / NaT
+        import pandas as pd
+        numeric = rng.choice(['float', 'date', 'float32'])
+        simname = 'user_numdiff'
+        for spec, side in ((L, 'l'), (R, 'r')):
+            n = T.spec_len(spec)
+            if numeric == 'date':
+                vals = [pd.NaT if rng.random() < 0.15 else pd.Timestamp('2020-01-01') + pd.Timedelta(days=rng.randint(0, 6))
+                        for _ in range(n)]
+                spec['dtypes'][side + 'attr'] = 'datetime64[ns]'
+            else:
+                vals = [gen.NAN if rng.random() < 0.15 else float(rng.randint(0, 6)) + rng.choice([0.0, 0.5])
+                        for _ in range(n)]
+                spec['dtypes'][side + 'attr'] = 'float64' if numeric == 'float' else 'float32'
+            spec['data'][side + 'attr'] = vals
     C = gen.random_candset(rng, L, R, lkey, rkey)
+    if rng.random() < 0.08 and T.spec_len(C) > 1:
+        # two blockers' outputs concatenated: pair ids restart, and a pair can occur twice
+        first = C['cols'][0]
+        n = T.spec_len(C)
+        k = rng.randint(1, n)
+        extra = [rng.randrange(n) for _ in range(rng.randint(1, 3))]
+        for c in C['cols']:
+            col = C['data'][c]
+            C['data'][c] = list(col) + [col[x] for x in extra]
+        C['data'][first] = [i % k for i in range(n + len(extra))]
+        if C.get('index') is not None:
+            C['index'] = list(C['index']) + [C['index'][x] for x in extra]
     call = {'api': 'apply_matcher', 'ltable': L, 'rtable': R, 'candset': C,
             'c_l_key': 'l_' + lkey, 'c_r_key': 'r_' + rkey, 'l_key': lkey, 'r_key': rkey,
             'l_attr': 'lattr', 'r_attr': 'rattr', 'tok': tok, 'sim': simname,
@@ -69,6 +101,8 @@ def make_case_call(rng):
             'l_out_attrs': gen.random_out_attrs(rng, L, lkey, 'lattr'),
             'r_out_attrs': gen.random_out_attrs(rng, R, rkey, 'rattr'),
             'out_sim_score': rng.random() < 0.8, 'n_jobs': rng.choice([1, 1, 2, 3, 50, -1])}
+    if numeric:
+        call['numeric_match'] = numeric
     if rng.random() < 0.3:
         call['l_out_prefix'], call['r_out_prefix'] = rng.choice([('left_', 'right_'), ('a.', 'b.'), ('', 'r.')])
     if rng.random() < 0.1:
@@ -140,7 +174,8 @@ def pad_tables(call, k):
             if cn == call['l_key']:
                 col.append(('PAD%d' % x) if (keys and isinstance(keys[0], str)) else 100000 + x)
             elif cn == call['l_attr']:
-                col.append('pad')
+                nm = call.get('numeric_match')
+                col.append('pad' if not nm else (col[0] if n else 0.0))
             else:
                 col.append(col[0] if n else (0 if str(L['dtypes'].get(cn)).startswith(('int', 'float')) else
                                              (False if L['dtypes'].get(cn) == 'bool' else 'p')))
